@@ -4,6 +4,8 @@ from mirsym.driver import *
 from mirsym.vals import *
 from mirsym.ext import pt, vec_of, unref
 
+from .geomlib import rat, unit2
+
 MOD = 'vlib.props.c11'
 R = z3.Real
 B = 1000
@@ -251,17 +253,265 @@ def j_outer(o, rep, out):
     return False
 
 
-JUDGES = {'circle_circle': j_cc, 'tangent_points': j_tangent, 'outer_tangents': j_outer}
+# ------------------------------------------------------------------------------------------------ line / segment vs circle
+def u_line_circle(dirn=0, kind='ray'):
+    cx, cy, r, ox, oy, k = [R(n) for n in ('cx', 'cy', 'r', 'ox', 'oy', 'k')]
+    a, b = DIRS2[dirn]
+    nrm = {0: 1, 1: 1, 2: 1, 3: 1, 4: 5, 5: 5, 6: 13, 7: 13}[dirn]
+    dx, dy = a * k, b * k                      # direction vector of length nrm*k (non-unit in general)
+    base = bounded(cx, cy, ox, oy) + [r > 0, r <= B, k > rat('1/1000'), k <= B]
+    mg = z3.RealVal('1/1000')
+    # signed distance from the centre to the line, times |d|: cross(d, c - o)
+    crs = dx * (cy - oy) - dy * (cx - ox)
+    dn = nrm * k
+
+    def make(eng):
+        circ = circle_val(cx, cy, r)
+        if kind == 'ray':
+            ln = DynV('Ray2', Struct('Ray', [pt([ox, oy]), [dx, dy]]))
+        else:
+            ln = DynV('Segment2', Struct('Segment2', [pt([ox, oy]), pt([ox + dx, oy + dy])]))
+        return [Ref.to(ln), Ref.to(circ)], None
+
+    def post(eng, c, ret):
+        ts = [num(t) for t in ret.items]
+        obs = [finite('no non-finite parameter', ts)]
+        if poisoned(ts):
+            return obs
+        far = z3.Or(crs > (r + mg) * dn, crs < -(r + mg) * dn)
+        cut = z3.And(crs < (r - mg) * dn, crs > -(r - mg) * dn, r > mg)
+        obs.append(holds('no intersection when the line passes outside the circle', z3.Implies(far, len(ts) == 0)))
+        obs.append(holds('two intersections when the line cuts the circle', z3.Implies(cut, len(ts) == 2)))
+        for j, t in enumerate(ts):
+            obs.append(on_circle(f'intersection {j} lies on the circle', [ox + t * dx, oy + t * dy], cx, cy, r) if len(ts) == 2 else
+                       eq(f'tangent intersection {j} lies on the circle', d2(ox + t * dx, oy + t * dy, cx, cy), sq(r), scale=B))
+        if len(ts) == 2:
+            obs.append(holds('parameters ascending', ts[0] <= ts[1]))
+        return obs
+
+    return Unit(f'line_circle[{kind},dir={DIRS2[dirn]}]', 'circle2::intersection_line_circle', make, post, base=base, known_pos=[k],
+                inputs={'cx': cx, 'cy': cy, 'r': r, 'ox': ox, 'oy': oy, 'dx': dx, 'dy': dy},
+                replay=('line_circle', lambda m: {'kind': kind, 'c': [m['cx'], m['cy'], m['r']], 'o': [m['ox'], m['oy']], 'd': [m['dx'], m['dy']], 'b': [m['ox'] + m['dx'], m['oy'] + m['dy']]}),
+                bounds={'line direction': 'concrete class, symbolic non-unit length', 'margin around tangency': '1e-3'}, timeout_ms=10000)
+
+
+def j_line_circle(o, rep, out):
+    import math
+    if 'ok' not in out:
+        return 'panic'
+    a, ts = rep['args'], out['ok']['ts']
+    c = a['c']
+    d = a['d']
+    dn = math.hypot(*d)
+    dist = abs(d[0] * (c[1] - a['o'][1]) - d[1] * (c[0] - a['o'][0])) / dn
+    if any(isinstance(t, str) for t in ts):
+        return 'non-finite parameter'
+    if dist > c[2] + 1e-3 and len(ts) != 0:
+        return 'intersections reported for a line outside the circle'
+    if dist < c[2] - 1e-3 and c[2] > 1e-3 and len(ts) != 2:
+        return 'a line cutting the circle does not give two intersections (distance to the line not scaled by |dir|)'
+    for t in ts:
+        p = [a['o'][0] + t * d[0], a['o'][1] + t * d[1]]
+        if abs(math.hypot(p[0] - c[0], p[1] - c[1]) - c[2]) > (1e-3 if len(ts) == 1 else 1e-7 * (1 + c[2] + abs(c[0]) + abs(c[1]))):
+            return 'line-circle intersection point off the circle'
+    return False
+
+
+# ------------------------------------------------------------------------------------------------ three-point arcs
+def u_arc3(d0=0, d1=1, d2_=2):
+    cx, cy, r = R('cx'), R('cy'), R('r')
+    base = bounded(cx, cy, b=100) + [r > rat('1/100'), r <= 100]
+    u = [unit2(d) for d in (d0, d1, d2_)]
+    P = [[cx + ud[0] * r, cy + ud[1] * r] for ud in u]
+    orient = (P[1][0] - P[0][0]) * (P[2][1] - P[0][1]) - (P[1][1] - P[0][1]) * (P[2][0] - P[0][0])
+
+    def make(eng):
+        return [pt(list(P[0])), pt(list(P[1])), pt(list(P[2]))], None
+
+    def post(eng, c, ret):
+        circ, a0, ang = ret[0], ret[1], ret[2]
+        ccx, ccy = vec_of(circ[0])
+        rr = num(circ[1][0])
+        obs = [finite('finite arc', [ccx, ccy, rr])]
+        if poisoned([ccx, ccy, rr, a0, ang]):
+            obs.append(finite('finite angles', [a0, ang]))
+            return obs
+        obs.append(eq('centre x recovered', ccx, cx, scale=100))
+        obs.append(eq('centre y recovered', ccy, cy, scale=100))
+        obs.append(eq('radius recovered', rr, r, scale=100))
+        A0, AN = to_angle(a0), to_angle(ang)
+        obs.append(holds('sweep is counter-clockwise exactly when the three points are', (AN.shadow > 0) == (orient > 0)))
+        obs.append(holds('sweep magnitude within a full turn', z3.And(AN.shadow >= -2 * PI_Z, AN.shadow <= 2 * PI_Z)))
+        c0, s0 = A0.cos_sin()
+        obs.append(eq('arc starts at the first point (x)', ccx + rr * c0, P[0][0], scale=100))
+        obs.append(eq('arc starts at the first point (y)', ccy + rr * s0, P[0][1], scale=100))
+        c2, s2 = A0.add(AN, 1).cos_sin()
+        obs.append(eq('arc ends at the third point (x)', ccx + rr * c2, P[2][0], scale=100))
+        obs.append(eq('arc ends at the third point (y)', ccy + rr * s2, P[2][1], scale=100))
+        return obs
+
+    return Unit(f'arc_three_points[{DIRS2[d0]},{DIRS2[d1]},{DIRS2[d2_]}]', 'Arc2::three_points', make, post, base=base, known_pos=[r],
+                inputs={**{f'p{i}{c}': P[i][k] for i in range(3) for k, c in enumerate('xy')}},
+                replay=('arc3', lambda m: {f'p{i}': [m[f'p{i}x'], m[f'p{i}y']] for i in range(3)}),
+                observers={'arc_aabb2': lambda eng, callee, args: Opaque('aabb (checked by the arc_aabb units)')},
+                bounds={'points': 'on a symbolic circle (centre in [-100,100]^2, r in (0.01,100]) at three concrete distinct directions'}, timeout_ms=15000)
+
+
+def j_arc3(o, rep, out):
+    import math
+    if 'ok' not in out:
+        return 'panic'
+    a, r = rep['args'], out['ok']
+    P = [a['p0'], a['p1'], a['p2']]
+    orient = (P[1][0] - P[0][0]) * (P[2][1] - P[0][1]) - (P[1][1] - P[0][1]) * (P[2][0] - P[0][0])
+    sc = 1 + max(abs(x) for p in P for x in p)
+    if math.dist(r['start'], P[0]) > 1e-6 * sc or math.dist(r['end'], P[2]) > 1e-6 * sc:
+        return 'arc does not start at the first / end at the third point'
+    if (r['angle'] > 0) != (orient > 0):
+        return 'sweep sign does not follow the orientation of the three points (the arc misses the second point)'
+    return False
+
+
+# ------------------------------------------------------------------------------------------------ arc bounding boxes, arc length
+def u_arc_aabb(sign=1):
+    cx, cy, r, e = R('cx'), R('cy'), R('r'), R('e')
+    base = bounded(cx, cy) + [r > 0, r <= B, e * sign >= rat('1/1000'), e * sign <= 2 * PI_Z - rat('1/1000')]
+    st = {}
+    s_sh = R('a0')
+    base += [s_sh >= -2 * PI_Z, s_sh <= 2 * PI_Z]
+    slack = rat('1/100000')
+
+    def make(eng):
+        a0 = Angle.free('a0', -2 * PI_F, 2 * PI_F)
+        st['a0'] = a0
+        return [Ref.to(circle_val(cx, cy, r)), a0, e], None
+
+    def post(eng, c, ret):
+        mins, maxs = vec_of(ret[0]), vec_of(ret[1])
+        obs = [finite('finite box', [mins, maxs])]
+        if poisoned([mins, maxs]):
+            return obs
+        a0 = st['a0']
+        c0, s0 = a0.cos_sin()
+        c1, s1 = a0.add(to_angle(e), 1).cos_sin()
+        ends = [[cx + r * c0, cy + r * s0], [cx + r * c1, cy + r * s1]]
+        begin = s_sh if sign > 0 else s_sh + e
+        ext = e if sign > 0 else -e
+        for k, (nm, val_in, val_out_fn, got) in enumerate((
+                ('right', cx + r, lambda: z3.If(ends[0][0] >= ends[1][0], ends[0][0], ends[1][0]), maxs[0]),
+                ('top', cy + r, lambda: z3.If(ends[0][1] >= ends[1][1], ends[0][1], ends[1][1]), maxs[1]),
+                ('left', cx - r, lambda: z3.If(ends[0][0] <= ends[1][0], ends[0][0], ends[1][0]), mins[0]),
+                ('bottom', cy - r, lambda: z3.If(ends[0][1] <= ends[1][1], ends[0][1], ends[1][1]), mins[1]))):
+            # axis direction k*pi/2 lies strictly inside / strictly outside the sweep (some whole-turn shift m in -2..2)
+            tg = k * PI_Z / 2
+            ins = z3.Or([z3.And(begin + slack <= tg + 2 * PI_Z * m, tg + 2 * PI_Z * m <= begin + ext - slack) for m in range(-3, 4)])
+            outs = z3.And([z3.Or(tg + 2 * PI_Z * m <= begin - slack, tg + 2 * PI_Z * m >= begin + ext + slack) for m in range(-3, 4)])
+            obs.append(eq(f'box touches the circle on the {nm} when that direction is swept', z3.If(ins, got, val_in), val_in, scale=B))
+            # (that an unswept side equals the farther end point cannot be decided: the abstraction does not order cos/sin by the radian value)
+            obs.append(le(f'box {nm} side reaches the farther end point', val_out_fn(), got, scale=B) if k < 2 else le(f'box {nm} side reaches the farther end point', got, val_out_fn(), scale=B))
+            obs.append(le(f'box {nm} side stays within the circle box', got, val_in, scale=B) if k < 2 else le(f'box {nm} side stays within the circle box', val_in, got, scale=B))
+        return obs
+
+    return Unit(f'arc_aabb[{"ccw" if sign > 0 else "cw"}]', 'aabb2::arc_aabb2', make, post, base=base, inputs={'cx': cx, 'cy': cy, 'r': r, 'a0': s_sh, 'e': e},
+                replay=('arc_aabb', lambda m: {'c': [m['cx'], m['cy'], m['r']], 'angle0': m['a0'], 'angle': m['e']}),
+                bounds={'start angle': '[-2pi, 2pi]', 'sweep': '(0, 2pi) ' + ('ccw' if sign > 0 else 'cw'), 'slack on sweep membership': '1e-5 rad'},
+                assumptions=['parry Aabb::from_points is the componentwise min/max of the points'], timeout_ms=15000)
+
+
+def j_arc_aabb(o, rep, out):
+    import math
+    if 'ok' not in out:
+        return 'panic'
+    a, r = rep['args'], out['ok']
+    c = a['c']
+    bbx = r['aabb']
+    # dense sampling of the real arc is only used to confirm a solver model on the real build
+    n = 720
+    xs, ys = [], []
+    for i in range(n + 1):
+        t = a['angle0'] + a['angle'] * i / n
+        xs.append(c[0] + c[2] * math.cos(t))
+        ys.append(c[1] + c[2] * math.sin(t))
+    tol = 1e-4 * (1 + c[2])
+    if bbx['mins'][0] > min(xs) + 1e-9 * (1 + abs(min(xs))) or bbx['mins'][1] > min(ys) + 1e-9 * (1 + abs(min(ys))) or bbx['maxs'][0] < max(xs) - 1e-9 * (1 + abs(max(xs))) or bbx['maxs'][1] < max(ys) - 1e-9 * (1 + abs(max(ys))):
+        return 'arc bounding box does not contain the arc'
+    if abs(bbx['mins'][0] - min(xs)) > tol or abs(bbx['mins'][1] - min(ys)) > tol or abs(bbx['maxs'][0] - max(xs)) > tol or abs(bbx['maxs'][1] - max(ys)) > tol:
+        return 'arc bounding box does not touch the arc on all four sides'
+    return False
+
+
+def u_arc_length():
+    cx, cy, r, e, f = R('cx'), R('cy'), R('r'), R('e'), R('f')
+    base = bounded(cx, cy) + [r > 0, r <= B, e >= -2 * PI_Z, e <= 2 * PI_Z, z3.Or(e > rat('1/1000'), e < -rat('1/1000')), f >= 0, f <= 1]
+    st = {}
+
+    def entry(eng, args):
+        arc, fr = args
+        ar = Ref.to(arc)
+        L = eng.call('Arc2::length', [ar])
+        pl = eng.call('Arc2::point_at_length', [ar, f_mul(L, fr)])
+        pf = eng.call('Arc2::point_at_fraction', [ar, fr])
+        return [L, pl, pf]
+
+    def make(eng):
+        a0 = Angle.free('a0')
+        arc = Struct('Arc2', [circle_val(cx, cy, r), a0, e, Opaque('aabb')])
+        return [arc, f], None
+
+    def post(eng, c, ret):
+        L, pl, pf = ret
+        pl, pf = vec_of(pl), vec_of(pf)
+        obs = [eq('arc length is r * |sweep|', num(L), r * z3.If(e >= 0, e, -e), scale=B), finite('finite points', [pl, pf])]
+        if not poisoned([pl, pf]):
+            obs.append(eq('point at length s equals point at fraction s/length (x)', pl[0], pf[0], scale=B))
+            obs.append(eq('point at length s equals point at fraction s/length (y)', pl[1], pf[1], scale=B))
+        return obs
+
+    return Unit('arc_length_and_points', entry, make, post, base=base, inputs={'cx': cx, 'cy': cy, 'r': r, 'e': e, 'f': f}, replay=None,
+                bounds={'sweep': '[-2pi, 2pi] away from 0'}, timeout_ms=15000)
+
+
+def u_circle_aabb():
+    cx, cy, r = R('cx'), R('cy'), R('r')
+
+    def make(eng):
+        return [Ref.to(pt([cx, cy])), r], None
+
+    def post(eng, c, ret):
+        mins, maxs = vec_of(ret[0]), vec_of(ret[1])
+        return [holds('circle box is centre -/+ radius', z3.And(mins[0] == cx - r, mins[1] == cy - r, maxs[0] == cx + r, maxs[1] == cy + r))]
+
+    return Unit('circle_aabb', 'aabb2::circle_aabb2', make, post, base=bounded(cx, cy) + [r > 0, r <= B], inputs={'cx': cx, 'cy': cy, 'r': r},
+                replay=('arc_aabb', lambda m: {'c': [m['cx'], m['cy'], m['r']], 'angle0': 0.0, 'angle': 1.0}))
+
+
+def j_circle_aabb(o, rep, out):
+    if 'ok' not in out:
+        return 'panic'
+    c, b = rep['args']['c'], out['ok']['circle_aabb']
+    if abs(b['mins'][0] - (c[0] - c[2])) > 1e-9 or abs(b['maxs'][1] - (c[1] + c[2])) > 1e-9 or abs(b['mins'][1] - (c[1] - c[2])) > 1e-9 or abs(b['maxs'][0] - (c[0] + c[2])) > 1e-9:
+        return 'circle bounding box is not centre -/+ radius'
+    return False
+
+
+JUDGES = {'circle_circle': j_cc, 'tangent_points': j_tangent, 'outer_tangents': j_outer, 'line_circle': j_line_circle, 'arc_three_points': j_arc3,
+          'arc_aabb': j_arc_aabb, 'circle_aabb': j_circle_aabb}
 
 _DQ = [0, 1, 2, 3, 4, 6]
 _DT = list(range(len(DIRS2))) + [None]
 UNITS = {
-    'quick': [(f, {'dirn': d}) for f in ('u_cc', 'u_tangent') for d in _DQ] + [('u_outer', {'dirn': d}) for d in (0, 1, 2, 3)] + [('u_tangent', {'dirn': None}), ('u_cc', {'dirn': None})],
-    'thorough': [(f, {'dirn': d}) for f in ('u_cc', 'u_tangent', 'u_outer') for d in _DT],
+    'quick': [(f, {'dirn': d}) for f in ('u_cc', 'u_tangent') for d in _DQ] + [('u_outer', {'dirn': d}) for d in (0, 1, 2, 3)] + [('u_tangent', {'dirn': None}), ('u_cc', {'dirn': None})] +
+             [('u_line_circle', {'dirn': d, 'kind': k}) for d in (0, 1, 4, 6) for k in ('ray', 'segment')] +
+             [('u_arc3', {'d0': a, 'd1': b, 'd2_': c}) for a, b, c in ((0, 1, 2), (0, 3, 2), (4, 5, 6), (1, 4, 0), (6, 0, 5), (2, 7, 1))] +
+             [('u_arc_aabb', {'sign': 1}), ('u_arc_aabb', {'sign': -1}), ('u_arc_length', {}), ('u_circle_aabb', {})],
+    'thorough': [(f, {'dirn': d}) for f in ('u_cc', 'u_tangent', 'u_outer') for d in _DT] +
+                [('u_line_circle', {'dirn': d, 'kind': k}) for d in range(8) for k in ('ray', 'segment')] +
+                [('u_arc3', {'d0': a, 'd1': b, 'd2_': c}) for a in range(8) for b in range(8) for c in range(8) if len({a, b, c}) == 3 and (a + 2 * b + 3 * c) % 5 == 0] +
+                [('u_arc_aabb', {'sign': 1}), ('u_arc_aabb', {'sign': -1}), ('u_arc_length', {}), ('u_circle_aabb', {})],
 }
 
 
 def run(v, tier, seed, only=None):
-    jobs = [(MOD, f, k) for (f, k) in UNITS[tier] if not only or only in f]
+    jobs = [(MOD, f, k) for (f, k) in UNITS[tier] if not only or any(o in f for o in only.split(','))]
     res = run_jobs(jobs, seed=seed, procs=14, timeout_s=600 if tier == 'quick' else 2400)
     fold_results(v, res, JUDGES, 'C11')
